@@ -474,6 +474,72 @@ fn check() {
         samples.push(json!({"request_heads": heads.len(), "upstream_replies": replies.len(), "example_reply": "HTTP/1.1 200 OK\\r\\nSession-Id: 4294967296\\r\\n\\r\\n"}));
     }
 
+    // ---- G. upstream SOCKS servers: every method-selection byte (offered or not), every sub-negotiation status and a
+    //         grid of replies, against the connector's own call sequence (SocksRequest::write_to with
+    //         PasswordAuth::optional(), then SocksResponse::read_from), with and without configured credentials
+    {
+        use crate::common::socks::{PasswordAuth, SocksRequest, SocksResponse};
+        let tails: Vec<Vec<u8>> = vec![
+            vec![],
+            vec![1, 0],
+            vec![1, 1],
+            vec![5, 0, 0, 1, 1, 2, 3, 4, 0, 80],
+            vec![1, 0, 5, 0, 0, 1, 1, 2, 3, 4, 0, 80],
+            vec![1, 0, 5, 0, 0, 3, 255],
+            vec![5, 0, 0, 4],
+            vec![5, 9, 0, 9],
+            vec![0xff; 20],
+        ];
+        let mut jobs: Vec<(u8, usize, bool, u8)> = vec![];
+        for m in 0..=255u8 {
+            for t in 0..tails.len() {
+                for auth in [false, true] {
+                    for ver in [5u8, 4u8] {
+                        if ver == 4 && (m % 16 != 0 || t > 3) {
+                            continue;
+                        }
+                        jobs.push((m, t, auth, ver));
+                    }
+                }
+            }
+        }
+        let bad: std::sync::Mutex<Vec<(String, String, serde_json::Value)>> = Default::default();
+        par_for(jobs.len(), |i| {
+            let (m, t, auth, ver) = jobs[i];
+            ctr.cases.fetch_add(1, Ordering::Relaxed);
+            let mut reply = if ver == 5 { vec![5, m] } else { vec![0, m] };
+            reply.extend(&tails[t]);
+            let r = catch(|| {
+                let fut = async {
+                    let mut server = make_buffered_stream(ChunkStream::new(vec![reply.clone()]));
+                    let req = SocksRequest {
+                        version: ver,
+                        cmd: 1,
+                        target: TargetAddress::DomainPort("t".into(), 80),
+                        auth: if auth { Some(("user".to_string(), "pass".to_string())) } else { None },
+                    };
+                    if req.write_to(&mut server, PasswordAuth::optional()).await.is_err() {
+                        return "request-refused";
+                    }
+                    match SocksResponse::read_from(&mut server).await {
+                        Ok(_) => "reply-read",
+                        Err(_) => "reply-error",
+                    }
+                };
+                run_ready(fut, 100_000)
+            });
+            match r {
+                Ok(Some(o)) => ctr.outcomes.add(&("socks-upstream", ver, auth, o)),
+                Ok(None) => bad.lock().unwrap().push(("hang".into(), format!("v{ver} upstream answers {} (credentials configured: {auth}): never returns", hex(&reply)), json!({"reply": hex(&reply), "auth": auth}))),
+                Err(p) => bad.lock().unwrap().push((format!("panic:{}", norm(&p)), format!("v{ver} upstream answers {} (credentials configured: {auth}): {p}", hex(&reply)), json!({"reply": hex(&reply), "auth": auth, "version": ver}))),
+            }
+        });
+        for (class, detail, replay) in bad.into_inner().unwrap() {
+            chk.violation("socks.connector-handshake", &class, detail, replay);
+        }
+        samples.push(json!({"socks_upstream_replies": jobs.len()}));
+    }
+
     // ---- F. fields that never end: every unbounded field of every stream decoder is fed a never-ending input;
     //         the decoder must give up after a bounded amount (1 MiB), long before memory runs out
     {
@@ -531,7 +597,7 @@ fn check() {
         "exhaustive": true,
         "states": ctr.outcomes.len(), "transitions": n, "traces_validated_against_impl": n,
         "evaluations": n, "distinct_nontrivial": ctr.outcomes.len(),
-        "rule": "inputs enumerated per decoder: every (id,total,seq) fragment header x 3 payload lengths + all sequences of 2 (thorough 3) datagrams over a 98-header alphabet; structured RPFM header/attribute grid (through the stream reader, from_buffer and the fragment layer) + every truncation; SOCKS-UDP header grid; all byte strings up to length 5 (thorough 6) over 12-symbol alphabets for the HTTP and SOCKS decoders (bare and behind a valid first line); every single-byte substitution/deletion of every valid message; h11c_handshake on 25 request heads; h11c_connect on 22 upstream replies x feature x channel; 11 unbounded fields (+3 length-prefixed controls) fed a never-ending input: the decoder must give up within 1 MiB. distinct = distinct (decoder, ok/err class) outcomes",
+        "rule": "inputs enumerated per decoder: every (id,total,seq) fragment header x 3 payload lengths + all sequences of 2 (thorough 3) datagrams over a 98-header alphabet; structured RPFM header/attribute grid (through the stream reader, from_buffer and the fragment layer) + every truncation; SOCKS-UDP header grid; all byte strings up to length 5 (thorough 6) over 12-symbol alphabets for the HTTP and SOCKS decoders (bare and behind a valid first line); every single-byte substitution/deletion of every valid message; h11c_handshake on 25 request heads; h11c_connect on 22 upstream replies x feature x channel; the SOCKS connector's handshake against every method-selection byte x 9 continuations x credentials configured or not (v5) and a v4 slice; 11 unbounded fields (+3 length-prefixed controls) fed a never-ending input: the decoder must give up within 1 MiB. distinct = distinct (decoder, ok/err class) outcomes",
         "samples": samples,
     });
     chk.finish(
